@@ -49,7 +49,7 @@ pub fn run(args: &Args) {
     for id in 0..args.count {
         let mut r = rng.fork();
         let kind = r.below(100);
-        let (mut lines, origin, n_mut): (Vec<String>, String, u64) = if kind < 88 {
+        let (mut lines, origin, n_mut): (Vec<String>, String, u64) = if kind < 86 {
             let mut cfg = BtorGenCfg::default();
             if r.chance(1, 3) {
                 cfg.widths = vec![1, 1, 2, 3, 4];
@@ -64,12 +64,14 @@ pub fn run(args: &Args) {
             // 2/3 well-formed as generated, 1/3 with one (mostly sort-breaking) mutation
             let n = if r.chance(2, 3) { 0 } else { 1 };
             (l, "generated".to_string(), n)
-        } else if kind < 94 && !small.is_empty() {
+        } else if kind < 92 && !small.is_empty() {
             let (name, text) = *r.pick(&small);
             (text.lines().map(|l| l.to_string()).collect(), format!("file:{name}"), r.below(2))
         } else {
-            let (l, name) = edge_template(&mut r);
-            (l, format!("edge:{name}"), 0)
+            // half of the edge cases: texts that exercise the post-processing of parse.rs (demotion, renaming, name clean-up)
+            let (l, name) = if r.chance(1, 2) { postproc_template(&mut r) } else { edge_template(&mut r) };
+            stats.bump("edge_template", name);
+            (l, format!("edge:{name}"), if name == "postproc" && r.chance(1, 5) { 1 } else { 0 })
         };
         let mut muts: Vec<&'static str> = vec![];
         for _ in 0..n_mut {
